@@ -68,7 +68,7 @@ Lemma run__mzd_row_swap d h fl mem a b sb m' :
   Ok (None, mem_of (words m')).
 Proof.
   intros Hv Hd Ha Hb Hsb Hw. pose proof (valid_hdr_ok _ _ Hv) as Hok. pose proof (valid_mem_ok _ _ Hv) as Hm.
-  pose proof Hd as (D1 & D2 & D3 & D4 & D5). pose proof Hok as (Hwd & _ & Hrs).
+  pose proof Hd as (D1 & D2 & D3 & D4 & D5 & D6). pose proof Hok as (Hwd & _ & Hrs).
   unfold w_row_swap in Hw. unfold hbundle.
   destruct (Nat.eqb_spec a b) as [Eab|Nab]; cbn [orb] in Hw.
   { apply wok_inj in Hw. subst m'.
